@@ -73,8 +73,77 @@ def run(report, p):
                 if t in p.funcs and p.funcs[t].module is info.module and [n for n in walk_no_nested(p.funcs[t].node) if isinstance(n, ast.While)]:
                     sf = p.funcs[t]
                     wl = [n for n in walk_no_nested(sf.node) if isinstance(n, ast.While)]
-    if len(wl) != 1:
+    if not wl:
+        pl = _parents_search(p, info)
+        if pl is not None:
+            _check_parents_search(p, r1, info, *pl)
+            wl = None
+    if wl is not None and len(wl) != 1:
         raise AnalysisError("info: upward search loop for the enclosing history not found (neither in info nor in a helper it calls)")
+    if wl is not None:
+        _check_while_search(p, r1, info, sf, wl)
+    raises = [n for n in g.nodes if n.kind == "stmt" and isinstance(n.ast, ast.Raise) and raised_class(p, info, n.ast) == c30]
+    ok2 = len(raises) == 1 and any(norm(t.ast) in ("root_path is None", "root_path == None", "not root_path") and l == "T" for t, l in g.control_deps(raises[0], transitive=False))
+    r1.check(ok2, info, raises[0].ast if raises else info.node, "info -sf does not fail with the no-history error when no enclosing history exists", construct="info -sf no history")
+    _rest(report, p, pr, info, reach, loader, c30, listers)
+
+
+def _parents_search(p, info):
+    """second idiom: `for d in pathlib.Path(<file>)....parents:` in info or a helper it calls -> (function, loop)"""
+    cands = [info] + [p.funcs[t] for c, tg in p.calls[info.qual] for t in tg if t in p.funcs and p.funcs[t].module is info.module]
+    for f in cands:
+        for n in walk_no_nested(f.node):
+            if isinstance(n, ast.For) and isinstance(n.iter, ast.Attribute) and n.iter.attr == "parents":
+                return f, n
+    return None
+
+
+def _check_parents_search(p, r1, info, sf, loop):
+    r1.instance(sf, loop, "upward search (Path.parents)")
+    # unwrap the chain under .parents
+    e = loop.iter.value
+    methods = []
+    arg = None
+    while True:
+        if isinstance(e, ast.Call) and isinstance(e.func, ast.Attribute) and e.func.attr in ("resolve", "absolute", "expanduser") :
+            methods.append(e.func.attr)
+            e = e.func.value
+            continue
+        if isinstance(e, ast.Call) and norm(e.func) in ("pathlib.Path", "Path", "pathlib.PurePath", "PurePath") and len(e.args) == 1:
+            arg = e.args[0]
+            break
+        raise AnalysisError(f"{sf.loc(loop)}: the path whose .parents are searched is built by `{norm(loop.iter)[:80]}`, a form this checker does not model")
+    inner = []
+    while isinstance(arg, ast.Call) and norm(arg.func) in ("os.path.abspath", "os.path.realpath", "os.path.normpath", "str", "os.fspath") and arg.args:
+        inner.append(norm(arg.func))
+        arg = arg.args[0]
+    first = "single_file[0]" if sf is info else (sf.params[0] if sf.params else None)
+    if norm(arg) != first:
+        raise AnalysisError(f"{sf.loc(loop)}: the upward search starts from `{norm(arg)}`, expected the first named file")
+    if sf is not info:
+        hc = [c for c, tg in p.calls[info.qual] if sf.qual in tg]
+        r1.check(len(hc) == 1 and hc[0].args and norm(hc[0].args[0]) == "single_file[0]", info, hc[0] if hc else info.node, "the search helper is not given the first named file", construct="search helper argument")
+    follows_links = "resolve" in methods or "os.path.realpath" in inner
+    absolutised = "absolute" in methods or "os.path.abspath" in inner or follows_links
+    r1.check(not follows_links, sf, loop, "the upward search resolves symbolic links (resolve()/realpath) while the listing looks the file up by its plain absolute path (abspath): for a file reached through a link the enclosing history is searched in another place than the one the path names, and the record is not found", construct="search follows symlinks, lookup does not")
+    r1.check(absolutised, sf, loop, "the upward search walks the parents of a possibly relative path: it stops at the current directory instead of the file system root", construct="search over a relative path")
+    d = loop.target.id if isinstance(loop.target, ast.Name) else None
+    hits = []
+    for n in loop.body:
+        if isinstance(n, ast.If):
+            t = norm(n.test).replace(" ", "")
+            cand = t in (f"({d}/ascmhl_folder_name).exists()", f"({d}/ascmhl_folder_name).is_dir()", f"os.path.exists(os.path.join({d},ascmhl_folder_name))", f"os.path.isdir(os.path.join({d},ascmhl_folder_name))", f"{d}.joinpath(ascmhl_folder_name).exists()", f"{d}.joinpath(ascmhl_folder_name).is_dir()")
+            takes = any(isinstance(x, ast.Return) and x.value is not None and norm(x.value) in (d, f"str({d})", f"os.fspath({d})") for x in n.body) or (any(isinstance(x, ast.Assign) and norm(x.value) in (d, f"str({d})", f"os.fspath({d})") for x in n.body) and any(isinstance(x, ast.Break) for x in n.body))
+            if cand and takes:
+                hits.append(n)
+    other = [n for n in loop.body if n not in hits and not isinstance(n, (ast.Expr, ast.Pass))]
+    if d is None or len(hits) != 1 or other:
+        raise AnalysisError(f"{sf.loc(loop)}: body of the Path.parents search is not `if (<dir> / ascmhl folder).exists(): take <dir>; stop`")
+    r1.check(True, sf, loop, "")
+
+
+def _check_while_search(p, r1, info, sf, wl):
+    g = cfg_of(info)
     r1.instance(sf, wl[0], "upward search")
     w = wl[0]
     t = norm(w)
@@ -103,9 +172,9 @@ def run(report, p):
         gs = cfg_of(sf)
         ok = ok and gs.node_for(m[0]).id in gs.reachable_from([gs.node_for(hits[0].test)])
     r1.check(ok, sf, wl[0], "the search for the enclosing history does not start at the file's own folder, move up one folder at a time and stop at the first folder that contains an ascmhl folder", construct="nearest enclosing history search")
-    raises = [n for n in g.nodes if n.kind == "stmt" and isinstance(n.ast, ast.Raise) and raised_class(p, info, n.ast) == c30]
-    ok2 = len(raises) == 1 and any(norm(t.ast) in ("root_path is None", "root_path == None", "not root_path") and l == "T" for t, l in g.control_deps(raises[0], transitive=False))
-    r1.check(ok2, info, raises[0].ast if raises else info.node, "info -sf does not fail with the no-history error when no enclosing history exists", construct="info -sf no history")
+
+
+def _rest(report, p, pr, info, reach, loader, c30, listers):
 
     # ------------------------------------------------------------------ R19.2
     r2 = report.rule("R19.2", "generation listing: a loop over the full generation list logs, on every path, number and creation date of the loop's own generation; the listing recurses into every child history (all levels)", 2)
